@@ -191,6 +191,16 @@ PROPS = {
         "partial": ["metadata level: injectivity of the layout/link serialisation is the C16 codec theorem (composed in Props/C16)"],
         "assumptions": COMMON_ASSUME,
     },
+    "C17": {
+        "claim": "The table of string requests made by the crate's hand-written decoders is regenerated from the source on every run; Lean proves that it contains no borrowed request and that a decoder making only owned requests is independent of channel and escape spelling; every document type is decoded on the real code through seven entry points and four spellings, which must agree.",
+        "level_note": "Trusted: Lean kernel; the translator's regular expressions (fail closed: unclassifiable string-like requests are rejected by the theorem); serde / serde_json and the derived decoders are library code covered only by the oracle.",
+        "technique": "Lean 4 theorem over a table translated from the Rust source on every run + four-channel decoding oracle on the implementation",
+        "translate": "strreq.py",
+        "rule": "cases = generated layouts, links, signed blocks, keys, signatures, rules, steps, statements and predicates (plus perturbed / malformed ones) decoded via from_str, from_slice, from_reader, from_value, Json::from_slice, Json::from_reader, Json::deserialize in compact, pretty and two re-spelled (escapes, whitespace, shuffled members) texts; distinct = distinct document type op; non-trivial = the document is accepted",
+        "trusted_base": ["serde / serde_json channel behaviour as described in Model/Channel.lean (library behaviour)", "translate/strreq.py scanning rules"],
+        "partial": ["serde internals and derived decoders are not modelled: the unbounded claim is about hand-written string requests; the rest is the oracle"],
+        "assumptions": COMMON_ASSUME,
+    },
     "C20": {
         "claim": 'Round trip unpack(pack(t,p)) = (p,t), injectivity of pack and panic-freedom of unpack are Lean theorems over all byte strings; the model is tied to pae_v1.rs by a differential run (random pairs, mutations, exhaustive framing-alphabet scope) and a direct oracle.',
         "level_note": 'Trusted: Lean kernel; hand-written model of pae_pack/pae_unpack validated differentially; str::from_utf8 abstracted as a predicate; usize = 64 bit.',
